@@ -21,6 +21,7 @@ func vp_C14_load_and_verify() {
 	vpAssume(err == nil)
 	fault := vpChoice("fault", "none", "bad-signature", "chain", "at-state")
 	third := vpChoice("third_input", "good", "malformed", "duplicate-of-first")
+	fourth := vpChoice("fourth_input", "none", "malformed", "duplicate-of-first")
 
 	c := vpBuild(verImpl, vpAlice, spec.MRoomCreate, vpStrPtr(""), vpJObj("creator", vpAlice, "room_version", string(ver)), nil, 1, true)
 	j := vpBuild(verImpl, vpAlice, spec.MRoomMember, vpStrPtr(vpAlice), vpJObj("membership", spec.Join), []string{c.EventID()}, 2, true)
@@ -67,6 +68,12 @@ func vp_C14_load_and_verify() {
 	default:
 		raws = append(raws, json.RawMessage(msgA.JSON()))
 	}
+	switch fourth {
+	case "malformed":
+		raws = append(raws, json.RawMessage(`{"type":6}`))
+	case "duplicate-of-first":
+		raws = append(raws, json.RawMessage(msgA.JSON()))
+	}
 	loader := NewEventsLoader(ver, verifier, sp, provider, false)
 	res, err := loader.LoadAndVerify(context.Background(), raws, TopologicalOrderByPrevEvents, vpUserIDForSender)
 	vpAssert("no-error", err == nil)
@@ -105,15 +112,21 @@ func vp_C14_load_and_verify() {
 		_, isRules := rb.Error.(AuthRulesErr)
 		vpAssert("auth-rules-error", isRules)
 	}
-	if third == "malformed" {
-		n := 0
-		for _, r := range res {
-			if r.Event == nil && r.Error != nil {
-				n++
-			}
+	// every input that carries no loadable event of its own (malformed, or a repeated copy) is reported by an error
+	// without event
+	wantNoEvent := 0
+	for _, x := range []string{third, fourth} {
+		if x == "malformed" || x == "duplicate-of-first" {
+			wantNoEvent++
 		}
-		vpAssert("malformed-input-reported", n == 1)
 	}
+	gotNoEvent := 0
+	for _, r := range res {
+		if r.Event == nil && r.Error != nil {
+			gotNoEvent++
+		}
+	}
+	vpAssert("unloadable-inputs-reported", gotNoEvent == wantNoEvent)
 	if third == "good" {
 		rc, nc := find(msgC.EventID())
 		vpAssert("third-good-event-passes", nc == 1 && rc.Error == nil)
